@@ -16,13 +16,20 @@
 (*            label is a special scope (<if>, <else>, <while>)                    *)
 (*   cells  : Seq(value)    every variable is a shared, mutable pair (Gc cell)   *)
 (*   lists  : Seq(Seq(value)) vectors are shared references into this heap       *)
+(*   objs   : Seq([cls, vars : name -> cell])  objects: make_object keeps the    *)
+(*            variable mapping of the frame of the class function (fields and    *)
+(*            `Class::method` function values), sharing its cells               *)
+(*   exports : file -> (name -> cell)  the export table of each bytecode file    *)
+(*   modcache : set of `file#__module__` paths whose module function has returned *)
 (*   out    : Seq(STRING)   lines printed; pr : Seq(value) items printed         *)
 (*   st     : "run" | "halt" | "fail" | "oom"  (oom = instruction / value kind    *)
 (*            outside this model: the run is not judged)                          *)
 (* Values are MSLang's VInt, VBool, VStr, VNil, VList (an index into `lists`),    *)
 (* machine function values [t |-> "fn", loc, cb] and array views                  *)
 (* [t |-> "view", id, ix] (Primitive::HeapPrimitive: what indexing a vector       *)
-(* pushes; readers look through it, ptr_mut / bin_op_assign write through it).    *)
+(* pushes; readers look through it, ptr_mut / bin_op_assign write through it),    *)
+(* lookup views [t |-> "cview", c] (what `lookup` of an object member pushes: a   *)
+(* pointer to the member's cell) and objects VObj(id).                            *)
 (* The code is a dump written by the real compiler / loader (hook H4).           *)
 EXTENDS MSLang
 
@@ -32,7 +39,8 @@ Act(fi, args, cb) == [fi |-> fi, ip |-> 0, ops |-> <<>>, sp |-> 0, args |-> args
 FnFrame == [blk |-> FALSE, vars |-> NoFrame]
 BlkFrame == [blk |-> TRUE, vars |-> NoFrame]
 
-Boot(entry) == [acts |-> <<Act(entry, <<>>, NoCb)>>, frames |-> <<FnFrame>>, cells |-> <<>>, lists |-> <<>>,
+Boot(entry) == [acts |-> <<Act(entry, <<>>, NoCb)>>, frames |-> <<FnFrame>>, cells |-> <<>>, lists |-> <<>>, objs |-> <<>>,
+                exports |-> NoFrame2, modcache |-> {},
                 out |-> <<>>, pr |-> <<>>, st |-> "run", why |-> ""]
 
 -----------------------------------------------------------------------------
@@ -58,7 +66,15 @@ PopV(a) == [a EXCEPT !.ops = SubSeq(@, 1, Len(@) - 1)]
 View(id, ix) == [t |-> "view", id |-> id, ix |-> ix]
 HeapOf(m) == [St0 EXCEPT !.lists = m.lists]     \* what MSLang's Show / ValEq / BinOp look at
 (* Primitive::move_out_of_heap_primitive *)
-Deref(m, v) == IF v.t = "view" THEN m.lists[v.id][v.ix + 1] ELSE v
+CView(c) == [t |-> "cview", c |-> c]
+VMod(file) == [t |-> "mod", file |-> file]       \* Primitive::Module: a reference to the file's (growing) export table
+ExportsOf(m, file) == IF file \in DOMAIN m.exports THEN m.exports[file] ELSE NoFrame
+AddExport(m, file, n, c) == [m EXCEPT !.exports = [f \in DOMAIN m.exports \cup {file} |->
+                                                    IF f = file THEN Bind(ExportsOf(m, file), n, c) ELSE m.exports[f]]]
+Deref(m, v) == IF v.t = "view" THEN m.lists[v.id][v.ix + 1] ELSE IF v.t = "cview" THEN m.cells[v.c] ELSE v
+IsPtr(v) == v.t \in {"view", "cview"}
+(* write through a pointer *)
+PtrSet(m, p, v) == IF p.t = "view" THEN [m EXCEPT !.lists[p.id][p.ix + 1] = v] ELSE [m EXCEPT !.cells[p.c] = v]
 DerefAll(m, xs) == [k \in 1..Len(xs) |-> Deref(m, xs[k])]
 
 (* Stack::find_name_in_function: from the top frame down to and including the frame of the *)
@@ -125,7 +141,7 @@ BuiltinNames == {"len", "push", "remove", "reverse", "clear", "clone", "join", "
 VoidBuiltins == {"push", "reverse", "clear"}
 RECURSIVE HasFn(_, _, _)
 HasFn(m, v, fuel) == LET d == Deref(m, v) IN
-                     d.t = "fn" \/ (d.t = "list" /\ fuel > 0 /\ \E k \in 1..Len(m.lists[d.id]) : HasFn(m, m.lists[d.id][k], fuel - 1))
+                     d.t \in {"fn", "obj", "bfn", "mod"} \/ (d.t = "list" /\ fuel > 0 /\ \E k \in 1..Len(m.lists[d.id]) : HasFn(m, m.lists[d.id][k], fuel - 1))
 
 (* one instruction *)
 Exec1(F, m) ==
@@ -180,12 +196,12 @@ Exec1(F, m) ==
                  ELSE SetTop(m, Adv([a EXCEPT !.ops = <<r.v>>]))          \* clear_and_set_stack
       [] op = "bin_op_assign" ->
             IF Len(ar) < 2 THEN
-                 (IF n < 2 \/ a.ops[n - 1].t # "view" THEN FailM(m, "machine")
+                 (IF n < 2 \/ ~IsPtr(a.ops[n - 1]) THEN FailM(m, "machine")
                   ELSE LET p == a.ops[n - 1]
                            r == BinResult(m, SubSeq(a1, 1, Len(a1) - 1), p, a.ops[n]) IN
                        IF r.st.status = "type" THEN OomM(m, "bin_op_assign " \o a1)
                        ELSE IF r.st.status # "ok" THEN FailM(m, r.st.status)
-                       ELSE [SetTop(m, Adv([a EXCEPT !.ops = Append(SubSeq(a.ops, 1, n - 2), r.v)])) EXCEPT !.lists[p.id][p.ix + 1] = r.v])
+                       ELSE PtrSet(SetTop(m, Adv([a EXCEPT !.ops = Append(SubSeq(a.ops, 1, n - 2), r.v)])), p, r.v))
             ELSE LET c == Resolve(m, a, ar[2]) IN
                  IF c = 0 \/ n = 0 THEN FailM(m, "machine")
                  ELSE LET r == BinResult(m, SubSeq(a1, 1, Len(a1) - 1), m.cells[c], TopV(a)) IN
@@ -194,7 +210,10 @@ Exec1(F, m) ==
                       ELSE [SetTop(m, Adv([a EXCEPT !.ops[n] = r.v])) EXCEPT !.cells[c] = r.v]
       [] op \in {"equ", "neq"} ->
             IF n # 2 THEN FailM(m, "machine")
-            ELSE IF HasFn(m, a.ops[1], 3) \/ HasFn(m, a.ops[2], 3) THEN OomM(m, "comparison of functions")
+            ELSE IF Deref(m, a.ops[1]).t = "nil" \/ Deref(m, a.ops[2]).t = "nil" THEN      \* nil only equals nil
+                 LET e == Deref(m, a.ops[1]).t = Deref(m, a.ops[2]).t IN
+                 SetTop(m, Adv([a EXCEPT !.ops = <<VBool(IF op = "equ" THEN e ELSE ~e)>>]))
+            ELSE IF HasFn(m, a.ops[1], 3) \/ HasFn(m, a.ops[2], 3) THEN OomM(m, "comparison of functions / objects")
             ELSE LET e == ValEq(Deref(m, a.ops[2]), Deref(m, a.ops[1]), HeapOf(m)) IN
                  SetTop(m, Adv([a EXCEPT !.ops = <<VBool(IF op = "equ" THEN e ELSE ~e)>>]))
       [] op = "neg" ->
@@ -242,6 +261,16 @@ Exec1(F, m) ==
             IF n # 1 THEN FailM(m, "machine")
             ELSE LET r == Deref(m, TopV(a)) IN
                  IF r.t \in {"list", "str", "fn"} /\ a1 \in BuiltinNames THEN SetTop(m, Adv([a EXCEPT !.ops = <<[t |-> "bfn", m |-> a1]>>]))
+                 ELSE IF r.t = "obj" THEN          \* Object::get_property: a field, else the method `Class::name`
+                      LET o == m.objs[r.id]
+                          q == o.cls \o "::" \o a1 IN
+                      IF a1 \in DOMAIN o.vars THEN SetTop(m, Adv([a EXCEPT !.ops = <<CView(o.vars[a1])>>]))
+                      ELSE IF q \in DOMAIN o.vars THEN SetTop(m, Adv([a EXCEPT !.ops = <<CView(o.vars[q])>>]))
+                      ELSE FailM(m, "machine")
+                 ELSE IF r.t = "mod" THEN
+                      (IF a1 \in DOMAIN ExportsOf(m, r.file) THEN SetTop(m, Adv([a EXCEPT !.ops = <<CView(ExportsOf(m, r.file)[a1])>>]))
+                       ELSE FailM(m, "machine"))
+                 ELSE IF r.t = "nil" THEN FailM(m, "nil")
                  ELSE OomM(m, "lookup " \o a1 \o " on " \o r.t)
       [] op = "ld_self" -> LET c == Local(m, a1) IN
             IF c = 0 THEN FailM(m, "machine") ELSE SetTop(m, Adv([a EXCEPT !.ops = <<m.cells[c]>> \o @]))
@@ -275,8 +304,8 @@ Exec1(F, m) ==
             ELSE Return(m, n = 1, IF n = 1 THEN TopV(a) ELSE VNil, BlocksOnTop(m.frames, Len(m.frames)) + 1)
       [] op = "ret_mod" ->
             IF n # 0 THEN FailM(m, "machine")
-            ELSE IF Len(m.acts) > 1 THEN OomM(m, "module value")
-            ELSE Return(m, FALSE, VNil, BlocksOnTop(m.frames, Len(m.frames)) + 1)
+            ELSE LET r == Return(m, Len(m.acts) > 1, VMod(F[a.fi].file), BlocksOnTop(m.frames, Len(m.frames)) + 1) IN
+                 [r EXCEPT !.modcache = @ \cup {F[a.fi].qn}]
       [] op = "make_vector" ->
             IF Len(ar) = 0 THEN [SetTop(m, Adv([a EXCEPT !.ops = <<VList(Len(m.lists) + 1)>>])) EXCEPT !.lists = Append(@, DerefAll(m, a.ops))]
             ELSE [SetTop(m, Adv(PushV(a, VList(Len(m.lists) + 1)))) EXCEPT !.lists = Append(@, <<>>)]
@@ -310,9 +339,32 @@ Exec1(F, m) ==
                        ELSE [SetTop(m, Adv(PopV(a))) EXCEPT !.lists[id][k + 1] = Deref(m, a.ops[2])])
             ELSE OomM(m, "vec_op " \o a1)
       [] op = "ptr_mut" ->
-            IF n < 2 \/ a.ops[n - 1].t # "view" THEN FailM(m, "machine")
-            ELSE LET p == a.ops[n - 1] IN
-                 [SetTop(m, Adv([a EXCEPT !.ops = SubSeq(@, 1, n - 2)])) EXCEPT !.lists[p.id][p.ix + 1] = Deref(m, a.ops[n])]
+            IF n < 2 \/ ~IsPtr(a.ops[n - 1]) THEN FailM(m, "machine")
+            ELSE PtrSet(SetTop(m, Adv([a EXCEPT !.ops = SubSeq(@, 1, n - 2)])), a.ops[n - 1], Deref(m, a.ops[n]))
+      [] op = "make_object" ->
+            [SetTop(m, Adv(PushV(a, VObj(Len(m.objs) + 1)))) EXCEPT
+                !.objs = Append(@, [cls |-> F[a.fi].name, vars |-> m.frames[Len(m.frames)].vars])]
+      [] op = "export_special" ->      \* the class function: bound (read-only) in the top frame and exported
+            IF n # 1 THEN FailM(m, "machine")
+            ELSE LET m1 == BindLocal(SetTop(m, Adv(PopV(a))), a1, Deref(m, TopV(a))) IN
+                 AddExport(m1, F[a.fi].file, IF Len(ar) >= 2 THEN ar[2] ELSE a1, Len(m1.cells))
+      [] op = "export_name" -> LET c == Local(m, a1) IN
+            IF c = 0 THEN FailM(m, "machine") ELSE AddExport(SetTop(m, Adv(a)), F[a.fi].file, a1, c)
+      [] op = "load_self_export" ->
+            IF a1 \notin DOMAIN ExportsOf(m, F[a.fi].file) THEN FailM(m, "machine")
+            ELSE SetTop(m, Adv(PushV(a, m.cells[ExportsOf(m, F[a.fi].file)[a1]])))
+      [] op = "module_entry" ->        \* first import runs the module function; later ones get the cached module
+            IF a1 \in m.modcache THEN
+                 LET fi == FnIndex(F, a1) IN SetTop(m, Adv([a EXCEPT !.ops = <<VMod(F[fi].file)>>]))
+            ELSE LET fi == FnIndex(F, a1) IN
+                 IF fi = 0 THEN OomM(m, "module " \o a1) ELSE Enter(m, [a EXCEPT !.ops = <<>>], fi, a.ops, NoCb)
+      [] op = "split_lookup_store" ->  \* `import a, b from m`: fresh local variables holding copies of the exported values
+            IF n = 0 \/ TopV(a).t # "mod" THEN FailM(m, "machine")
+            ELSE LET ex == ExportsOf(m, TopV(a).file)
+                     RECURSIVE BindAll(_, _)
+                     BindAll(mm, k) == IF k > Len(ar) THEN mm ELSE BindAll(BindLocal(mm, ar[k], m.cells[ex[ar[k]]]), k + 1) IN
+                 IF \E k \in 1..Len(ar) : ar[k] \notin DOMAIN ex THEN FailM(m, "machine")
+                 ELSE BindAll(SetTop(m, Adv(a)), 1)
       [] OTHER -> OomM(m, "instruction " \o op)
 
 (* the loop of Function::run: an activation whose instruction pointer has run off the end *)
